@@ -78,6 +78,7 @@ pub fn gen_plan(seed: u64, backend: Backend, entry: Entry, thorough: bool) -> Co
         allow_restart: false,
         allow_seed: false,
         foreign_lock_pct: 0,
+        allow_empty_payload: false,
     };
     // the prefix: 0..8 sequential operations; half of the time empty-ish so that the very first
     // requests for a new client are in the batch
